@@ -372,8 +372,8 @@ def build_model(case, seed):
     fam, cls, basecls, kw, basekw, cplx = MODELS[case["model"]]
     X, Y, Mx, My, tlabels, sdims = training(case["structure"], cplx, seed)
     extra = {}
-    if case["prep"] == "std_coslat":
-        extra = dict(standardize=True, use_coslat=True)
+    if case["prep"] == "std_coslat":  # the second field (stations) has no latitude
+        extra = dict(standardize=True, use_coslat=[True, False] if fam == "cross" else True)
     dim = sdims if len(sdims) > 1 else sdims[0]
     pkg = {"single": xe.single, "cross": xe.cross, "multi": xe.multi}[fam]
     if fam == "multi":
